@@ -27,6 +27,17 @@ def ev(n, env):
             return env[v]
         if n['referencedDecl'].get('kind') == 'EnumConstantDecl':
             return ('enum', v)
+        defs = _LOCALS.get(v)
+        if defs is not None and len(defs) == 1 and _DEPTH[0] < 3:
+            # a flag local computed once (`dir_out = direction != NULL && strcmp (direction, "out") == 0;`): its definition when it depends on
+            # the attribute under study, otherwise "the other attribute has the value that takes this path" (same approximation as for guards)
+            if any(uses(defs[0], x) for x in env):
+                _DEPTH[0] += 1
+                try:
+                    return ev(defs[0], env)
+                finally:
+                    _DEPTH[0] -= 1
+            return 1
         return UNK
     if k == 'UnaryOperator' and n.get('opcode') == '!':
         a = ev(C.kids(n)[0], env)
@@ -112,6 +123,7 @@ def ev(n, env):
 
 _TU = None
 _DEPTH = [0]
+_LOCALS = {}
 _NORET = object()
 
 
@@ -201,6 +213,25 @@ def decode_tables(tu):
         attrs = attr_vars(tu, f)
         if not attrs:
             continue
+        # boolean/flag locals of this function and their definitions
+        _LOCALS.clear()
+        params_ = set(p_['name'] for p_ in tu.params(f))
+        for d in C.walk(tu.body(f)):
+            if d.get('kind') == 'VarDecl' and d.get('name') not in attrs and d.get('name') not in params_:
+                _LOCALS.setdefault(d['name'], [])
+                if C.kids(d) and d.get('init'):
+                    _LOCALS[d['name']].append(C.kids(d)[-1])
+        for l, r, st in C.assignments(tu.body(f)):
+            nm_ = C.declref(l)
+            if nm_ in _LOCALS:
+                _LOCALS[nm_].append(r)
+        for nm_ in list(_LOCALS):
+            tq = ''
+            for d in C.walk(tu.body(f)):
+                if d.get('kind') == 'VarDecl' and d.get('name') == nm_:
+                    tq = (d.get('type', {}).get('qualType') or '')
+            if tq not in ('gboolean', 'int', 'gint', 'guint', 'bool', '_Bool'):
+                del _LOCALS[nm_]
         stores = {}
         for l, r, st in C.assignments(tu.body(f)):
             lp = C.strip(l)
